@@ -21,7 +21,7 @@ cp $SRC/zz_seed_demo_test.go $WT/$DEMO_DIR/zz_seed_demo_test.go
 rm -f $WT/$DEMO_DIR/zz_seed_demo_test.go
 # 2. apply
 PATCH=$SRC/patch.diff; [ -f $SRC/patch.rebased.diff ] && PATCH=$SRC/patch.rebased.diff; if git -C $WT apply $PATCH 2>/dev/null; then echo "apply=clean($(basename $PATCH))"; elif git -C $WT apply --3way $SRC/patch.diff 2>$OUT.apply.err; then echo "apply=3way"; else echo "apply=FAILED"; cat $OUT.apply.err | head -5; exit 0; fi
-git -C $WT diff > $OUT.rebased.diff
+git -C $WT diff HEAD > $OUT.rebased.diff
 (cd $WT && go build ./... > $OUT.build.log 2>&1); echo "build_rc=$?"
 # 3. suite with the patch (cluster: the two 10ms-sleep tests are flaky on the untouched tree under load and are skipped)
 (cd $WT && NS timeout 900 go test -vet=off -count=1 ./actor/ ./remote/ ./ringbuffer/ ./safemap/ > $OUT.suite.log 2>&1); echo "suite_rc=$?"
